@@ -62,9 +62,11 @@ type Stmt struct {
 	Limit   int         // -1 = none
 	Offset  int
 	Where   string // the raw top-level WHERE text
-	// Universe[col] = values of col over the rows satisfying every conjunct that is NOT a comparison on col:
-	// what the statement ranges over when col is the pagination column. Filled for KeyCol only.
-	Universe []string
+	// Ranged = indices (table order) of the rows satisfying every conjunct that is not a comparison on KeyCol:
+	// what the statement ranges over when KeyCol is the pagination column.
+	// Sorted = indices of the rows satisfying every conjunct, after ORDER BY, before OFFSET / LIMIT.
+	Ranged []int
+	Sorted []int
 	Returned int
 	Err      string
 }
@@ -343,8 +345,8 @@ func (d *DB) analyse(sql string) (st Stmt, rows [][]driver.Value, cols []string,
 	if d.Strict && (len(st.Ignored) > 0 || len(st.OrderIg) > 0) {
 		return st, nil, nil, fmt.Errorf("tabledrv: not understood: %v %v", st.Ignored, st.OrderIg)
 	}
-	kc := t.col(d.KeyCol)
-	for _, r := range t.Rows {
+	var idx []int
+	for i, r := range t.Rows {
 		all, others := true, true
 		for _, c := range st.Conds {
 			h := holds(c.Op, cmp(r[t.col(c.Col)], c.Lit))
@@ -353,18 +355,17 @@ func (d *DB) analyse(sql string) (st Stmt, rows [][]driver.Value, cols []string,
 				others = others && h
 			}
 		}
-		if others && kc >= 0 {
-			s, _ := asText(r[kc])
-			st.Universe = append(st.Universe, s)
+		if others {
+			st.Ranged = append(st.Ranged, i)
 		}
 		if all {
-			rows = append(rows, r)
+			idx = append(idx, i)
 		}
 	}
 	if len(st.Order) > 0 {
-		sort.SliceStable(rows, func(i, j int) bool {
+		sort.SliceStable(idx, func(i, j int) bool {
 			for _, o := range st.Order {
-				c := cmp(rows[i][t.col(o.Col)], rows[j][t.col(o.Col)])
+				c := cmp(t.Rows[idx[i]][t.col(o.Col)], t.Rows[idx[j]][t.col(o.Col)])
 				if c != 0 {
 					return (c < 0) != o.Desc
 				}
@@ -372,15 +373,19 @@ func (d *DB) analyse(sql string) (st Stmt, rows [][]driver.Value, cols []string,
 			return false
 		})
 	}
+	st.Sorted = append([]int{}, idx...)
 	if st.Offset > 0 {
-		if st.Offset >= len(rows) {
-			rows = nil
+		if st.Offset >= len(idx) {
+			idx = nil
 		} else {
-			rows = rows[st.Offset:]
+			idx = idx[st.Offset:]
 		}
 	}
-	if st.Limit >= 0 && st.Limit < len(rows) {
-		rows = rows[:st.Limit]
+	if st.Limit >= 0 && st.Limit < len(idx) {
+		idx = idx[:st.Limit]
+	}
+	for _, i := range idx {
+		rows = append(rows, t.Rows[i])
 	}
 	st.Returned = len(rows)
 	return st, rows, cols, nil
